@@ -744,7 +744,8 @@ REPO_SRC_WIDE = ["rkcommon/utility/demangle.cpp", "rkcommon/common.cpp", "rkcomm
 
 
 def over_budget(ctx):
-    return time.time() - ctx.t0 > BUDGET_S
+    # the budget is for the quick tier; the thorough tier runs 10-20x more cases and gets 12x the time
+    return time.time() - ctx.t0 > BUDGET_S * (12 if ctx.thorough() else 1)
 
 
 def stage(ctx, name, fn):
